@@ -99,6 +99,7 @@ def run_workers(cmds, parallel=NCPU):
         with open(out) as fh:
             r = json.load(fh)
         os.remove(out)
+        r["_rerun"] = {"argv": argv, "env": env_extra or {}}       # what `--replay` needs to run this shard again
         return r
     with ThreadPoolExecutor(max_workers=parallel) as ex:
         return list(ex.map(one, cmds))
@@ -346,7 +347,7 @@ def conclude(prop, tier, seed, legs, wall):
                     c = classes.setdefault(fk, dict(count=0, key=v["class_key"], sample=None, leg=summ))
                     if c["sample"] is None:
                         c["sample"] = dict(v, instance=sh.get("instance"), instantiation=sh.get("instantiation"),
-                                           config=sh.get("config"))
+                                           config=sh.get("config"), rerun=sh.get("_rerun"), relabelled_from=v["class_key"].get("orig_property"))
             for s in sh.get("samples", [])[:1]:
                 if len(samples) < 6:
                     samples.append(s)
